@@ -70,13 +70,16 @@ PER_RUN = 24
 
 
 SEEDED_SCALE = {"quick": 4, "thorough": 5}      # multiplies the run counts of the sampled families in plan()
-ENUMERATED = ('b2b_enum',)       # families whose size is the size of an enumeration
+ENUMERATED = ('b2b_enum', 'axsize')       # families whose size is the size of an enumeration
+
+AXSIZE_BYTES = [1, 2, 4, 8, 16, 32, 64, 128]
+
 
 def plan(tier):
     n_enum = -(-len(the_grid()) // PER_RUN)
     if tier == "quick":
-        return [("b2b_enum", n_enum // 10), ("b2b", 60), ("conv", 80)]
-    return [("b2b_enum", n_enum * 4), ("b2b", 4000), ("conv", 5000)]
+        return [("b2b_enum", n_enum // 10), ("b2b", 60), ("conv", 80), ("axsize", len(AXSIZE_BYTES))]
+    return [("b2b_enum", n_enum * 4), ("b2b", 4000), ("conv", 5000), ("axsize", len(AXSIZE_BYTES))]
 
 
 def stall_pattern(kind, n, rng):
@@ -90,6 +93,12 @@ def stall_pattern(kind, n, rng):
 
 
 def generate_indexed(family, index, rng, tier):
+    if family == "axsize":
+        # a burst whose AxSIZE is taken from the repository's own table of transfer sizes (axi_common.AXSIZE[bytes]), as a user of the
+        # table builds it: the beats must advance by that many bytes
+        nbytes = AXSIZE_BYTES[index % len(AXSIZE_BYTES)]
+        return {"family": family, "params": {"caps": [0, 1, 2]}, "nbytes": nbytes, "addr": 0x3000, "len": 3,
+                "src_pattern": "1" * 10, "dst_pattern": stall_pattern(index % 4, 60, rng), "garbage": None}
     if family == "b2b_enum":
         g = the_grid()
         n_enum = -(-len(g) // PER_RUN)
@@ -163,12 +172,22 @@ def generate(family, rng, tier):
 
 
 def run(scn):
+    if scn["family"] == "axsize":
+        from litex.soc.interconnect.axi import axi_common
+        n = scn["nbytes"]
+        if n not in axi_common.AXSIZE:
+            return {"violations": [], "digest": "axsize-%d-absent" % n, "stats": {"checks": 0, "probes": {"axsize_absent": 1}}}
+        code = axi_common.AXSIZE[n]
+        sub = dict(scn, family="b2b", bursts=[{"addr": scn["addr"], "len": scn["len"], "size": code, "burst": INCR, "id": 0x5a}])
+        r = run_b2b(sub, step_bytes=n)
+        r["stats"].setdefault("probes", {})["axsize_entries"] = 1
+        return r
     if scn["family"] in ("b2b", "b2b_enum"):
         return run_b2b(scn)
     return run_conv(scn)
 
 
-def run_b2b(scn):
+def run_b2b(scn, step_bytes=None):
     from litex.soc.interconnect import axi
     from litex.soc.interconnect.axi.axi_full import ax_description
     caps = set(scn["params"]["caps"])
@@ -198,6 +217,13 @@ def run_b2b(scn):
     for bi, b in enumerate(bursts):
         eff = b["burst"] if b["burst"] in caps else FIXED      # a core without the capability treats the burst as FIXED
         exp = beat_addresses(b["addr"], b["len"], b["size"], eff)
+        if step_bytes is not None:
+            # (family axsize) the size code came from the repository's table for `step_bytes` bytes per transfer
+            want = [b["addr"] + i * step_bytes for i in range(b["len"] + 1)]
+            checks += 1
+            if exp != want:
+                V("axsize_table", "axi_common.AXSIZE", "AXSIZE[%d] = %s: a 4-beat INCR burst with that AxSIZE advances by %d bytes per beat (AMBA: AxSIZE = log2(bytes)), "
+                  "the table promises %d" % (step_bytes, bin(b["size"]), 1 << b["size"], step_bytes))
         for n, a in enumerate(exp):
             if k >= len(got):
                 V("beats_missing", "ax_beat", "burst #%d %r: %d of %d beats delivered" % (bi, b, n, len(exp)))
